@@ -85,6 +85,7 @@ class SUT:
 
         self.world = world
         self.world0 = world
+        self.call_style = world.get("call_style")
         self.log: list = []  # successful mutating / restart ops, in order
         self.device = W.build_device(world["device"])
         self.register = W.build_register(world["register"])
@@ -149,6 +150,34 @@ CACHE = {"cache_clear", "cache_shrink"}
 FORK = {"fork"}
 
 
+_SIGS: dict = {}
+
+
+def _styled(sut: "SUT", name: str, required: list, optional: list):
+    """Call seq.<name> with the run's call style: 'default' (required arguments
+    positional, optional ones by keyword), 'kw' (everything by keyword) or 'pos'
+    (everything positional, intermediate optional arguments filled with their
+    defaults). The scheduled result must not depend on it; what the sequence
+    RECORDS does, and serialisers / device switches replay that record."""
+    import inspect
+
+    seq = sut.seq
+    style = getattr(sut, "call_style", None) or "default"
+    fn = getattr(seq, name)
+    if style == "kw":
+        return fn(**dict(required), **dict(optional))
+    if style == "pos" and optional:
+        sig = _SIGS.get(name)
+        if sig is None:
+            sig = _SIGS[name] = inspect.signature(getattr(type(seq), name))
+        given = dict(optional)
+        names = [p for p in list(sig.parameters)[1 + len(required):]]
+        last = max(names.index(k) for k in given)
+        extra = [given[k] if k in given else sig.parameters[k].default for k in names[: last + 1]]
+        return fn(*[v for _, v in required], *extra)
+    return fn(*[v for _, v in required], **dict(optional))
+
+
 def _detuning_map(sut: SUT, weights: dict):
     # a replay document stores the weights through JSON, which turns integer
     # qubit ids into strings: key them by the register's own ids again
@@ -165,38 +194,30 @@ def _do(sut: SUT, op: dict) -> Any:
     seq = sut.seq
     k = op["op"]
     if k == "declare_channel":
-        kw = {}
-        if op.get("initial_target") is not None:
-            kw["initial_target"] = op["initial_target"]
-        return seq.declare_channel(op["name"], op["channel_id"], **kw)
+        opt = [("initial_target", op["initial_target"])] if op.get("initial_target") is not None else []
+        return _styled(sut, "declare_channel", [("name", op["name"]), ("channel_id", op["channel_id"])], opt)
     if k == "config_detuning_map":
-        return seq.config_detuning_map(
-            _detuning_map(sut, op["weights"]), op["dmm_id"]
-        )
+        return _styled(sut, "config_detuning_map", [("detuning_map", _detuning_map(sut, op["weights"])), ("dmm_id", op["dmm_id"])], [])
     if k == "config_slm_mask":
-        if "dmm_id" in op:
-            return seq.config_slm_mask(op["qubits"], op["dmm_id"])
-        return seq.config_slm_mask(op["qubits"])
+        return _styled(sut, "config_slm_mask", [("qubits", op["qubits"])], [("dmm_id", op["dmm_id"])] if "dmm_id" in op else [])
     if k == "set_magnetic_field":
         return seq.set_magnetic_field(*op["b"])
     if k == "target":
-        return seq.target(op["qubits"], op["ch"])
+        return _styled(sut, "target", [("qubits", op["qubits"]), ("channel", op["ch"])], [])
     if k == "target_index":
-        return seq.target_index(op["qubits"], op["ch"])
+        return _styled(sut, "target_index", [("qubits", op["qubits"]), ("channel", op["ch"])], [])
     if k == "add":
         pulse = build_pulse(op["pulse"])
-        if "protocol" in op:
+        if "protocol" in op and sut.call_style is None:
             return seq.add(pulse, op["ch"], op["protocol"])
-        return seq.add(pulse, op["ch"])
+        return _styled(sut, "add", [("pulse", pulse), ("channel", op["ch"])], [("protocol", op["protocol"])] if "protocol" in op else [])
     if k == "add_dmm_detuning":
         w = build_wf(op["wf"])
-        if "protocol" in op:
+        if "protocol" in op and sut.call_style is None:
             return seq.add_dmm_detuning(w, op["ch"], op["protocol"])
-        return seq.add_dmm_detuning(w, op["ch"])
+        return _styled(sut, "add_dmm_detuning", [("waveform", w), ("dmm_name", op["ch"])], [("protocol", op["protocol"])] if "protocol" in op else [])
     if k == "delay":
-        if "at_rest" in op:
-            return seq.delay(op["d"], op["ch"], at_rest=op["at_rest"])
-        return seq.delay(op["d"], op["ch"])
+        return _styled(sut, "delay", [("duration", op["d"]), ("channel", op["ch"])], [("at_rest", op["at_rest"])] if "at_rest" in op else [])
     if k == "align":
         if "at_rest" in op:
             return seq.align(*op["chs"], at_rest=op["at_rest"])
@@ -208,29 +229,26 @@ def _do(sut: SUT, op: dict) -> Any:
             op["phi"], *op["targets"], basis=op["basis"]
         )
     if k in ("enable_eom_mode", "modify_eom_setpoint"):
-        kw = {}
+        opt = []
         if "opt_off" in op:
-            kw["optimal_detuning_off"] = op["opt_off"]
+            opt.append(("optimal_detuning_off", op["opt_off"]))
         if "cpd" in op:
-            kw["correct_phase_drift"] = op["cpd"]
-        return getattr(seq, k)(op["ch"], op["amp_on"], op["det_on"], **kw)
+            opt.append(("correct_phase_drift", op["cpd"]))
+        return _styled(sut, k, [("channel", op["ch"]), ("amp_on", op["amp_on"]), ("detuning_on", op["det_on"])], opt)
     if k == "add_eom_pulse":
-        kw = {}
+        opt = []
         for a, b in (
             ("pps", "post_phase_shift"),
             ("protocol", "protocol"),
             ("cpd", "correct_phase_drift"),
         ):
             if a in op:
-                kw[b] = op[a]
-        return seq.add_eom_pulse(op["ch"], op["d"], op["phase"], **kw)
+                opt.append((b, op[a]))
+        return _styled(sut, "add_eom_pulse", [("channel", op["ch"]), ("duration", op["d"]), ("phase", op["phase"])], opt)
     if k == "disable_eom_mode":
-        kw = {}
-        if "cpd" in op:
-            kw["correct_phase_drift"] = op["cpd"]
-        return seq.disable_eom_mode(op["ch"], **kw)
+        return _styled(sut, "disable_eom_mode", [("channel", op["ch"])], [("correct_phase_drift", op["cpd"])] if "cpd" in op else [])
     if k == "measure":
-        return seq.measure(op["basis"])
+        return _styled(sut, "measure", [("basis", op["basis"])], [])
     if k == "declare_variable":
         v = seq.declare_variable(op["name"], dtype=int if op.get("int") else float)
         sut.vars[op["name"]] = v
